@@ -28,7 +28,7 @@ def classes_of(desc, acc):
                 acc.add('od_move_to_end')
     if t == 'deque' and desc[2] == 'len' and desc[1]:
         acc.add('deque_at_maxlen')
-    if t in ('cg', 'cn', 'cs', 'cm', 'cu', 'ci', 'dc', 'partial', 'cq', 'cp', 'dci', 'ntc', 'cl', 'dsn'):
+    if t in ('cg', 'cn', 'cs', 'cm', 'cu', 'ci', 'dc', 'partial', 'cq', 'cp', 'dci', 'ntc', 'cl', 'dsn', 'co'):
         acc.add('custom_node')
     if t in ('nt', 'ss'):
         acc.add('namedtuple_or_structseq')
